@@ -389,6 +389,11 @@ func run(id, tier, only string, workers int, trace bool, replayFile, solver stri
 	}
 	scratch := filepath.Join(outDir, ".scratch", fmt.Sprintf("%s-%d", id, os.Getpid()))
 	defer os.RemoveAll(scratch)
+	useFiles, err = expandGenerated(useFiles, filepath.Join(scratch, "gen"))
+	if err != nil {
+		fmt.Fprintln(os.Stderr, err)
+		return 2
+	}
 
 	if replayFile != "" {
 		return doReplay(id, replayFile, useFiles, scratch)
